@@ -316,6 +316,12 @@ class qset(MutableSequenceSet[_T], abcs.Copyable):
         # is a duplicate.
         for v in filterfalse(leaving.__contains__, filter(self.__contains__, values)):
             raise Emsg.DuplicateValue(v)
+        # The arriving values must also be distinct among themselves.
+        seen = set()
+        for v in values:
+            if v in seen:
+                raise Emsg.DuplicateValue(v)
+            seen.add(v)
         self._hook_check(values, leaving)
         self._set_.difference_update(leaving)
         try:
